@@ -15,6 +15,13 @@ use std::task::{RawWaker, RawWakerVTable, Waker};
 /// argument of core's `atomic_load::<T, false>` — so separate scalar statics are unsafe to write.)
 pub(crate) struct Env {
     pub magic: u64,
+    /// != 0: `io_uring::op::poll` (singleshot) is replaced by its contract `verif_op::poll_contract`, which encodes
+    /// exactly the postconditions proved by op.poll.not_started / op.poll.done.ok on the real function
+    pub poll_contract: u32,
+    /// != 0: `io_uring::op::fallback` (EINVAL -> ErrorKind::Unsupported, everything else unchanged; proved by
+    /// op.fallback) is replaced by the identity: building io::Error::new(kind, &str) is what makes CBMC blow up
+    pub fallback_identity: u32,
+    pub fallback_calls: u32,
     /// LK_CALL: environment step to run (a plain fn registered by the harness), after skipping `lock_skip` matching acquisitions
     pub lock_fn: Option<fn()>,
     pub lock_skip: u32,
@@ -80,6 +87,9 @@ pub(crate) struct Env {
 }
 pub(crate) static mut E: Env = Env {
     magic: 0xA10A_10A1_5EED_F00D,
+    poll_contract: 0,
+    fallback_identity: 0,
+    fallback_calls: 0,
     lock_fn: None,
     lock_skip: 0,
     env_u16: std::ptr::null(),
@@ -222,6 +232,18 @@ pub(crate) fn on_lock(addr: usize) {
     }
 }
 
+pub(crate) fn use_poll_contract() {
+    unsafe { E.poll_contract = 1 };
+}
+pub(crate) fn on_fallback() -> bool {
+    unsafe {
+        E.fallback_calls += 1;
+        E.fallback_identity != 0
+    }
+}
+pub(crate) fn fallback_as_identity() {
+    unsafe { E.fallback_identity = 1 };
+}
 pub(crate) fn on_wake_blocked_futures() -> bool {
     unsafe {
         E.wbf_calls += 1;
